@@ -587,6 +587,15 @@ func init() {
 					}
 				}
 			})
+			// collapse-consecutive-slashes on the bounded-exhaustive path shapes: no empty non-final segment, model agreement
+			famPathShapes(c, cfgFromDesc("collapse"), allFields, "path-shapes:collapse", func(d *Driver, base *string, input string, io Obs, idx int) {
+				if io.Kind == "U" && io.Fields[fSpecial] == "1" {
+					pn := io.Fields[fPathname]
+					if strings.Contains(pn, "//") || !strings.HasPrefix(pn, "/") {
+						c.Report(Finding{Class: "violation", What: fmt.Sprintf("collapse-consecutive-slashes: special URL with pathname %q", pn), Case: Case{Kind: "parse", Cfg: "collapse", Base: base, Input: input, Family: "path-shapes:collapse", Index: idx}})
+					}
+				}
+			})
 			// replaced encode sets govern exactly their component and scheme class
 			type setOpt struct {
 				cfg     *Cfg
